@@ -180,7 +180,14 @@ func (b *backend) BlockchainInfo(ctx context.Context, minHeight, maxHeight int64
 func (b *backend) Tx(ctx context.Context, hash []byte, prove bool) (*ctypes.ResultTx, error) {
 	res, err := rpccore.Tx(rctx, hash, prove)
 	if err != nil {
-		return nil, err
+		b.mu.Lock()
+		lying := b.mutate != nil && b.method == "Tx"
+		b.mu.Unlock()
+		if !lying {
+			return nil, err
+		}
+		// a lying node need not admit that it does not know the tx: the falsification fills this empty record
+		res = &ctypes.ResultTx{}
 	}
 	out := new(ctypes.ResultTx)
 	return out, b.serve("Tx", res, out)
